@@ -610,6 +610,46 @@ func genSweepCase(w *bufio.Writer, rng *rand.Rand, k int, d int) []string {
 	return ops
 }
 
+// genEmptySnapCase: a peer that holds a non-empty set falls more than a snapshot period behind while the publisher
+// withdraws everything; the snapshot it then receives is reset-only (empty announced set).
+func genEmptySnapCase(w *bufio.Writer, rng *rand.Rand, k int) []string {
+	s0 := []uint64{0, 57, 1000, 1 << 40}[rng.Intn(4)]
+	c := newPfxCase(w, s0, "t", rng.Int63())
+	hdr := fmt.Sprintf("case pfx %d %d t", k, c.pubPT.Vf19Me().Latest)
+	fmt.Fprintln(w, hdr)
+	ops := []string{hdr}
+	c.obsPub()
+	do := func(op string) { ops = append(ops, op); c.exec(op) }
+	catchUp := func() {
+		do("jsync 1 c+0")
+		for i := 0; i < 140; i++ {
+			if pend, _ := c.pendingOf(c.peers[1]); pend == "-" {
+				break
+			}
+			do("ans 1 -")
+			do("del 1")
+		}
+	}
+	held := []int{1 + rng.Intn(4), 5 + rng.Intn(4), 9 + rng.Intn(4)}
+	for _, n := range held {
+		do(fmt.Sprintf("pa %d", n))
+	}
+	do("jnew 1")
+	do("jreach 1 1")
+	catchUp()
+	churn := 13
+	for i := 0; i < 49+rng.Intn(8); i++ {
+		do(fmt.Sprintf("pa %d", churn))
+		do(fmt.Sprintf("pw %d", churn))
+	}
+	for _, n := range held {
+		do(fmt.Sprintf("pw %d", n))
+	}
+	catchUp()
+	fmt.Fprintln(w, "end")
+	return ops
+}
+
 // replayPfxCase re-executes a recorded op list (first line: the case header).
 func replayPfxCase(w *bufio.Writer, ops []string) {
 	h := strings.Fields(ops[0])
